@@ -133,6 +133,9 @@ func decodeGeneve(data []byte, p gopacket.PacketBuilder) error {
 func (gn *Geneve) SerializeTo(b gopacket.SerializeBuffer, opts gopacket.SerializeOptions) error {
 	var optionsLength int
 	for _, o := range gn.Options {
+		if o == nil {
+			return errors.New("Geneve: nil option")
+		}
 		dataLen := len(o.Data) & ^3
 		optionsLength += 4 + dataLen
 	}
